@@ -79,6 +79,9 @@ fn main() {
                 std::process::exit(2)
             };
             let run = Run::new(&id, tier, seed, level);
+            if id == "C05" || id == "C07" {
+                engine::TRACK_INFLIGHT.store(true, std::sync::atomic::Ordering::Relaxed);
+            }
             run.replay_dir(replayf);
             runf(&run);
             std::process::exit(run.finish());
@@ -136,6 +139,7 @@ fn main() {
             engine::QUIET_PANICS.store(false, std::sync::atomic::Ordering::Relaxed);
             let mut run = Run::new(&id, Tier::Quick, env_seed.unwrap_or(0), level);
             run.strict = true;
+            engine::TRACK_INFLIGHT.store(true, std::sync::atomic::Ordering::Relaxed);
             match replayf(&run, &sub, &case) {
                 None => {
                     eprintln!("replay: unknown sub-check '{sub}' or undecodable case");
